@@ -44,9 +44,13 @@ ORACLE_PREMISES = [
 MODELLED = ('seg/sop.py: _get_pixels_by_seg_frame (dtype choice and capacity check, LABELMAP need_remap / '
             'intermediate dtype / remap table / one-hot, BINARY+FRACTIONAL combine loop with overlap test and maximum, '
             'stacked + rescale branch), _get_segment_remap_values, argument checks and missing-frame policies of the '
-            'five read entry points, segment_numbers, number_of_segments, get_segment_numbers, get_tracking_ids; '
+            'five read entry points (incl. segment_numbers=None and repeated segment numbers in stacked reads), '
+            'segment_numbers, number_of_segments, get_segment_numbers, get_tracking_ids, get_segment_description, '
+            'segmented_property_categories / _types; _check_and_cast_pixel_array (integer input, LABELMAP) with '
+            '_combine_segments; '
             'image.py: _prepare_channel_tables and the stack join (as comprehension), _get_pixels_by_frame (as gather)')
-STRATA = ['instance', 'frame', 'dimidx', 'volume', 'tpm', 'subsets', 'malformed', 'fixture', 'search', 'tracking']
+STRATA = ['instance', 'frame', 'dimidx', 'volume', 'tpm', 'subsets', 'malformed', 'fixture', 'search', 'tracking',
+          'ctor', 'describe']
 NOT_EXECUTED = ['palette colour / ICC output of LABELMAP (apply_palette_color_lut)',
                 'objects whose (plane, segment) pairs are not unique (guard modelled, not reachable through the constructor)']
 RULE = ('objects: BINARY/FRACTIONAL/LABELMAP, 1-4 segments (LABELMAP also sparse numbers from '
@@ -233,6 +237,13 @@ def gen_read(rng, o, entry, req=None, opts=None):
     if opts is None:
         opts = [rng.random() < 0.55, rng.random() < 0.5, rng.random() < 0.35, rng.random() < 0.7]
     r['combine'], r['relabel'], r['skip'], r['rescale'] = opts
+    if req is None and not r['combine'] and rng.random() < 0.18:
+        # a stacked read may name a segment more than once (D90)
+        r['req'] = [rng.choice(o['segs']) for _ in range(rng.randint(2, 5))]
+    elif req is None and rng.random() < 0.08:
+        # segment_numbers=None: all segments of the object
+        r['req'] = list(o['segs'])
+        r['default_req'] = True
     r['dtype'] = safe_dtype(rng, o, r['req'], r['combine'], r['relabel'], r['rescale'])
     return r
 
@@ -256,6 +267,7 @@ def applicable_bad(o, entry):
 
 def gen_malformed(rng, o, entry, idx=None):
     r = gen_read(rng, o, entry)
+    r.pop('default_req', None)
     P = o['P']
     kinds = applicable_bad(o, entry)
     bad = rng.choice(kinds) if idx is None else kinds[idx % len(kinds)]
@@ -295,6 +307,10 @@ def gen_malformed(rng, o, entry, idx=None):
         r['combine'], r['dtype'] = True, 'bool'
     elif bad == 'strict_volume' and entry == 'volume':
         r['am'] = False
+    if r['combine'] and len(set(r['req'])) < len(r['req']):
+        # repeated numbers are only meaningful for stacked reads (the property speaks of ordered subsets; a
+        # combined read of a BINARY object with a repeated number dies with sqlite3.IntegrityError)
+        r['req'] = list(dict.fromkeys(r['req']))
     return r
 
 
@@ -398,7 +414,64 @@ def gen_cases(rng, tier):
     for i in range({'quick': 30, 'thorough': 300, 'search': 100}[tier]):
         cases.append(gen_search(rng, 'search'))
         cases.append(gen_search(rng, 'tracking'))
+    for i in range({'quick': 12, 'thorough': 150, 'search': 50}[tier]):
+        cases.append(gen_describe(rng))
+    for i in range({'quick': 16, 'thorough': 200, 'search': 60}[tier]):
+        cases.append(gen_ctor(rng, i))
     return cases
+
+
+def gen_describe(rng):
+    c = gen_search(rng, 'search')
+    segs = c['segs']
+    ns = list(segs) + [max(segs) + 1, -1, 70000]
+    if c['ty'] != 'LABELMAP':
+        ns.append(0)
+    rng.shuffle(ns)
+    return {'kind': 'describe', 'ty': c['ty'], 'segs': segs, 'descs': c['descs'], 'numbers': ns, 'file': c['file']}
+
+
+def gen_ctor(rng, i):
+    """inputs of Segmentation._check_and_cast_pixel_array (integer arrays, LABELMAP): a list of sub-cases"""
+    subs = []
+    for j in range(8):
+        S = rng.choice([1, 1, 2, 3, 3, 4])
+        segs = list(range(1, S + 1)) if rng.random() < 0.5 else sorted(rng.sample(SPARSE, S))
+        if rng.random() < 0.2:
+            rng.shuffle(segs)
+        shape = rng.choice([(1, 2, 2), (2, 1, 3), (1, 1, 1), (3, 2, 1), (1, 3, 3)])
+        n = shape[0] * shape[1] * shape[2]
+        mode = rng.choice(['disjoint', 'disjoint', 'disjoint', 'overlap', 'empty', 'nonbinary', 'full', 'labelmap3',
+                           'labelmap3', 'labelmap3_bad', 'channels'])
+        in_dt = rng.choice(['uint8', 'uint16', 'bool']) if mode != 'nonbinary' else rng.choice(['uint8', 'uint16'])
+        sub = {'segs': segs, 'shape': list(shape), 'mode': mode, 'in_dtype': in_dt}
+        if mode.startswith('labelmap3'):
+            vals = [rng.choice([0] + segs) for _ in range(n)]
+            if mode == 'labelmap3_bad':
+                cand = [v for v in (max(segs) + 1, 1, 2, 3, 6, 254, 299) if v not in segs]
+                vals[rng.randrange(n)] = rng.choice(cand)
+            if max(vals) > 255:
+                sub['in_dtype'] = 'uint16'
+            elif in_dt == 'bool' and max(vals) > 1:
+                sub['in_dtype'] = 'uint8'
+            sub['px3'] = vals
+        else:
+            C = S if mode != 'channels' else S + rng.choice([1, -1] if S > 1 else [1])
+            px = [[0] * C for _ in range(n)]
+            for q in range(n):
+                if mode == 'empty':
+                    continue
+                if mode == 'full' or rng.random() < 0.6:
+                    px[q][rng.randrange(C)] = 1
+            if mode == 'overlap' and C > 1:
+                q = rng.randrange(n)
+                for k in rng.sample(range(C), rng.randint(2, C)):
+                    px[q][k] = 1
+            if mode == 'nonbinary':
+                px[rng.randrange(n)][rng.randrange(C)] = rng.choice([2, 3, 255])
+            sub['px'] = px
+        subs.append(sub)
+    return {'kind': 'ctor', 'subs': subs}
 
 
 # ----------------------------------------------------------------------------
@@ -552,7 +625,8 @@ def _dim_translation(seg, o):
 def do_read(seg, o, sources, r, dimtab):
     import numpy as np
     import highdicom as hd
-    kw = dict(segment_numbers=list(r['req']), combine_segments=r['combine'], relabel=r['relabel'],
+    kw = dict(segment_numbers=None if r.get('default_req') else list(r['req']),
+              combine_segments=r['combine'], relabel=r['relabel'],
               rescale_fractional=r['rescale'], skip_overlap_checks=r['skip'],
               dtype=None if r['dtype'] is None else np.dtype(r['dtype']))
     e = r['entry']
@@ -655,6 +729,10 @@ def run_impl(c):
     k = c['kind']
     if k in ('search', 'tracking'):
         return run_search(c)
+    if k == 'describe':
+        return run_describe(c)
+    if k == 'ctor':
+        return run_ctor(c)
     if k == 'fixture':
         import highdicom as hd
         fa = fixture_abstract(c['fixture'])
@@ -742,6 +820,75 @@ def run_search(c):
     return outs
 
 
+def _build_described(c):
+    import numpy as np
+    import highdicom as hd
+    import synth
+    cds = _codes()
+    S = len(c['segs'])
+    src = synth.ct_series(1, 2, 2, normal_step=(0.0, 0.0, 5.0))
+    descs = []
+    for d in c['descs']:
+        descs.append(synth.seg_description(
+            d['num'], label=LABELS[d['label']], category=cds[d['cat']], ptype=cds[d['type']],
+            algorithm_type=ALGS[d['alg']],
+            tracking_uid=None if d['tuid'] is None else TUIDS[d['tuid']],
+            tracking_id=None if d['tid'] is None else TIDS[d['tid']]))
+    if c['ty'] == 'BINARY':
+        arr = np.zeros((1, 2, 2, S), np.uint8)
+        arr[0, 0, 0, :] = 1
+    else:
+        arr = np.zeros((1, 2, 2), np.uint8 if max(c['segs']) < 256 else np.uint16)
+        arr[0, 0, 0] = c['segs'][0]
+    seg = synth.make_seg(src, arr, c['ty'], c['segs'], descriptions=descs)
+    if c['file']:
+        seg = synth.write_read(seg, hd.seg.segread)
+    return seg, cds
+
+
+def run_describe(c):
+    seg, cds = _build_described(c)
+
+    def code_index(x):
+        for i, cd in enumerate(cds):
+            if x == cd:
+                return i
+        return -1
+
+    def one(n):
+        d = seg.get_segment_description(n)
+        tu, ti = d.tracking_uid, d.tracking_id
+        return [int(d.segment_number), LABELS.index(str(d.segment_label)), code_index(d.segmented_property_category),
+                code_index(d.segmented_property_type), ALGS.index(d.algorithm_type.value if hasattr(d.algorithm_type, 'value')
+                                                                  else str(d.algorithm_type)),
+                None if tu is None else TUIDS.index(str(tu)), None if ti is None else TIDS.index(str(ti))]
+    return [[catch(one, n) for n in c['numbers']],
+            catch(lambda: [code_index(x) for x in seg.segmented_property_categories]),
+            catch(lambda: [code_index(x) for x in seg.segmented_property_types])]
+
+
+def run_ctor(c):
+    import numpy as np
+    import highdicom as hd
+    from highdicom.seg import Segmentation, SegmentationTypeValues
+    outs = []
+    for sub in c['subs']:
+        segs = sub['segs']
+        dt = np.dtype(np.uint8 if max(segs) < 256 else np.uint16)      # what __init__ passes for LABELMAP
+        if 'px3' in sub:
+            arr = np.array(sub['px3'], dtype=sub['in_dtype']).reshape(sub['shape'])
+        else:
+            arr = np.array(sub['px'], dtype=sub['in_dtype']).reshape(tuple(sub['shape']) + (len(sub['px'][0]),))
+
+        def f(arr=arr, segs=segs, dt=dt):
+            out, ov = Segmentation._check_and_cast_pixel_array(arr, np.array(segs), SegmentationTypeValues.LABELMAP, dt)
+            if out.shape != arr.shape[:3]:
+                return ['bad-shape', list(out.shape)]
+            return [int(v) for v in out.ravel().tolist()]
+        outs.append(catch(f))
+    return outs
+
+
 # ----------------------------------------------------------------------------
 # model side
 # ----------------------------------------------------------------------------
@@ -766,12 +913,36 @@ def read_term(r, tiled_volume=False):
     if tiled_volume and r['entry'] == 'volume':
         e = 'ETpm'           # get_volume of a tiled image delegates to get_total_pixel_matrix
     dt = 'None' if r['dtype'] is None else f"(Some {DT_COQ[r['dtype']]})"
-    return (f"run_read {e} {_bool(r['am'])} st {zl(r['planes'])} {zl(r['req'])} "
+    head = 'run_read_default' if r.get('default_req') else 'run_read'
+    rq = '' if r.get('default_req') else zl(r['req']) + ' '
+    return (f"{head} {e} {_bool(r['am'])} st {zl(r['planes'])} {rq}"
             f"(mkOpts {_bool(r['combine'])} {_bool(r['relabel'])} {_bool(r['skip'])} {_bool(r['rescale'])} {dt})")
+
+
+def zll_(ll):
+    return '[' + '; '.join(zl(x) for x in ll) + ']'
 
 
 def coq_term(c):
     k = c['kind']
+    if k == 'ctor':
+        terms = []
+        for sub in c['subs']:
+            d = '(DU 8)' if max(sub['segs']) < 256 else '(DU 16)'
+            if 'px3' in sub:
+                terms.append(f"run_ctor3 {zl(sub['segs'])} {d} {zl(sub['px3'])}")
+            else:
+                terms.append(f"run_ctor4 {zl(sub['segs'])} {d} {zll_(sub['px'])}")
+        return '(VL [' + '; '.join(terms) + '])'
+    if k == 'describe':
+        bg = 'None'
+        ds = []
+        if c['ty'] == 'LABELMAP':
+            bg = '(Some 0)'
+            ds.append('mkDesc 0 99 99 99 0 None None')
+        for d in c['descs']:
+            ds.append(f"mkDesc {d['num']} {d['label']} {d['cat']} {d['type']} {d['alg']} {_opt(d['tuid'])} {_opt(d['tid'])}")
+        return '(run_describe [' + '; '.join(ds) + f"] {bg} {zl(c['numbers'])})"
     if k in ('search', 'tracking'):
         bg = 'None'
         ds = []
@@ -889,10 +1060,52 @@ def check_read(r, ty, segs, maxfrac, npix, mask, known_keys, max_ref, present, l
     return None
 
 
+def oracle_describe(c, out):
+    by = {d['num']: d for d in c['descs']}
+    for n, res in zip(c['numbers'], out[0]):
+        if n in by:
+            d = by[n]
+            want = [n, d['label'], d['cat'], d['type'], d['alg'], d['tuid'], d['tid']]
+            if isinstance(res, Err) or list(res) != want:
+                return f'get_segment_description({n}) = {res}, described as {want}'
+        elif not (isinstance(res, Err) and res.kind == 'IndexError'):
+            return f'get_segment_description({n}) of an undescribed number gave {res}'
+    for name, key, res in (('categories', 'cat', out[1]), ('types', 'type', out[2])):
+        want = []
+        for d in c['descs']:
+            if d[key] not in want:
+                want.append(d[key])
+        if isinstance(res, Err) or list(res) != want:
+            return f'segmented_property_{name} = {res}, expected {want}'
+    return None
+
+
+def oracle_ctor(c, out):
+    for sub, res in zip(c['subs'], out):
+        segs = sub['segs']
+        if 'px3' in sub:
+            bad = any(v != 0 and v not in segs for v in sub['px3'])
+            want = list(sub['px3'])
+        else:
+            px = sub['px']
+            bad = len(px[0]) != len(segs) or any(v > 1 for p in px for v in p) or any(sum(p) > 1 for p in px)
+            want = None if bad else [next((segs[k] for k, v in enumerate(p) if v), 0) for p in px]
+        if bad:
+            if not (isinstance(res, Err) and res.kind == 'ValueError'):
+                return f'construction input {sub} must be refused with ValueError, got {str(res)[:200]}'
+        elif isinstance(res, Err) or list(res) != want:
+            return f'label map built from {sub} is {str(res)[:200]}, expected {want}'
+    return None
+
+
 def oracle(c, out):
     k = c['kind']
     if k in ('search', 'tracking'):
         return oracle_search(c, out)
+    if k == 'describe':
+        return oracle_describe(c, out)
+    if k == 'ctor':
+        return oracle_ctor(c, out)
     if isinstance(out, list) and out and out[0] == 'stored-object-differs-from-prediction':
         return 'stored object differs from the prediction made from the input masks: ' + str(out[1:])[:400]
     if k == 'fixture':
@@ -965,6 +1178,10 @@ def oracle_search(c, out):
 def nontrivial(c, out):
     if c['kind'] in ('search', 'tracking'):
         return any(isinstance(r, Err) or (r and r[0]) for r in out)
+    if c['kind'] == 'describe':
+        return bool(out and out[0])
+    if c['kind'] == 'ctor':
+        return any(isinstance(r, Err) or any(r) for r in out)
 
     def nz(x):
         if isinstance(x, list):
@@ -977,6 +1194,12 @@ def shrink(c):
     if 'reads' in c and len(c['reads']) > 1:
         for i in range(len(c['reads'])):
             yield dict(c, reads=[c['reads'][i]])
+    if 'subs' in c and len(c['subs']) > 1:
+        for i in range(len(c['subs'])):
+            yield dict(c, subs=[c['subs'][i]])
+    if 'numbers' in c and len(c['numbers']) > 1:
+        for i in range(len(c['numbers'])):
+            yield dict(c, numbers=[c['numbers'][i]])
     if 'queries' in c and len(c['queries']) > 1:
         for i in range(len(c['queries'])):
             yield dict(c, queries=[c['queries'][i]])
@@ -985,7 +1208,7 @@ def shrink(c):
         if len(r['planes']) > 1 and r['entry'] in ('instance', 'frame', 'dimidx'):
             for i in range(len(r['planes'])):
                 yield dict(c, reads=[dict(r, planes=r['planes'][:i] + r['planes'][i + 1:])])
-        if len(r['req']) > 1:
+        if len(r['req']) > 1 and not r.get('default_req'):
             for i in range(len(r['req'])):
                 yield dict(c, reads=[dict(r, req=r['req'][:i] + r['req'][i + 1:])])
 
